@@ -85,7 +85,7 @@ structure State where
   orphans : List Nat := []               -- ghost: rcs whose flight ended with nobody waiting
   detached : Nat → Bool := fun _ => false -- ghost: rcs whose file was open when the arena was Closed
   stales : Nat → Nat := fun _ => 0       -- ghost: errStale outcomes seen by each task
-  deaths : Nat → Nat := fun _ => 0       -- ghost: per key, rcs whose count went back to zero (file closed)
+  deaths : Nat → Nat := fun _ => 0       -- ghost: per key, files that have been closed
   skeys : List Nat := []                 -- ghost: the key each task was spawned for
 
 def init : State := {}
@@ -142,7 +142,8 @@ def dec (fixed : Bool) (s : State) (r : Nat) : State × Bool :=
               arena := if fixed then
                          (if s.arena (s.rc r).key = some r then upd s.arena (s.rc r).key none else s.arena)
                        else upd s.arena (s.rc r).key none,
-              deaths := upd s.deaths (s.rc r).key (s.deaths (s.rc r).key + 1) }, false)
+              deaths := if (s.rc r).fileOpen then upd s.deaths (s.rc r).key (s.deaths (s.rc r).key + 1)
+                        else s.deaths }, false)
   else ({ s with rc := upd s.rc r { s.rc r with count := (s.rc r).count - 1 } }, false)
 
 /-- What every waiter of the flight on `k` becomes when the flight ends. -/
